@@ -33,6 +33,7 @@ enum FaultKind : int {
   kFThreadExit,     // counted by the harness (generated operations)
   kFThreadRestart,  // counted by the harness
   kFPlainPreempt,
+  kFStoreBuffered,  // TSO mode: an atomic store was held back in the store buffer while its thread went on
   kFaultKinds
 };
 
@@ -51,6 +52,8 @@ struct Config {
   int spin_bound = 28;           // B of section 2.7
   uint64_t max_steps = 200000;
   bool plain_sched = false;      // C19: plain accesses to watched ranges are scheduling points
+  bool tso = false;              // x86-TSO store buffers inside API calls (non-seq_cst atomic stores are delayed past later loads)
+  int tso_drain_percent = 25;    // per scheduling point: probability that the memory system drains one buffered store
   // replay: explicit decision list (one chosen vthread per scheduling point)
   const uint8_t *replay_choices = nullptr;
   size_t replay_len = 0;
@@ -106,6 +109,7 @@ uint64_t now_ns();
 // API-call bracket: context for deadlock reports, spin detection reset, overlap measurement
 void op_begin(const char *ctx, int obj);        // ctx must outlive the run (static or arena)
 void op_end();
+void op_end_keep_buffered();                   // TSO mode: the call returns while its last stores may still sit in the store buffer
 void set_pos(int pos);                          // per-vthread program position (state canonicalisation)
 
 // first successful write by this vthread into [addr, addr+len) since the call; 0 = none (C11)
